@@ -15,6 +15,12 @@ use vharness::*;
 
 /// everything a client can observe; key -> canonical text
 fn observe13(db: &mut Db, with_queries: bool) -> BTreeMap<String, String> {
+    observe13x(db, with_queries, with_queries)
+}
+
+/// `ddl_probes`: CREATE/DROP INDEX probes on clones (not for disk-backed databases, whose clones
+/// share the index files)
+fn observe13x(db: &mut Db, with_queries: bool, ddl_probes: bool) -> BTreeMap<String, String> {
     let mut m = BTreeMap::new();
     let mut tables = db.db.list_tables();
     tables.sort();
@@ -28,12 +34,12 @@ fn observe13(db: &mut Db, with_queries: bool) -> BTreeMap<String, String> {
     m.insert("catalog_indexes".into(), format!("{:?}", cat_idx));
     // ... and what DDL on the index names does: creating an index of a known name / dropping it
     // must succeed or fail exactly as in the other state (probed on clones)
-    if with_queries {
+    if ddl_probes {
         let mut names: std::collections::BTreeSet<String> = idx.iter().cloned().collect();
         for i in db.db.catalog.list_all_indexes() {
             names.insert(i.name.to_uppercase());
         }
-        for n in ["ZZ", "QV", "IX1", "IX2", "BIX1", "P0", "UW"] {
+        for n in ["ZZ", "QV", "IX1", "PZ", "UW"] {
             names.insert(n.to_string());
         }
         for n in names {
@@ -55,7 +61,7 @@ fn observe13(db: &mut Db, with_queries: bool) -> BTreeMap<String, String> {
             Some(Ok(o)) => {
                 m.insert(format!("rows:{}", t), format!("{:?}", o.rows));
                 m.insert(format!("constraint_indexes:{}", t), format!("{:?}", o.hidx));
-                m.insert(format!("user_index_data:{}", t), format!("{:?}", o.uidx));
+                m.insert(format!("user_index_data:{}", t), format!("{:?} prefix {:?}", o.uidx, o.pidx));
             }
             Some(Err(e)) => {
                 m.insert(format!("rows:{}", t), format!("unreadable {}", e));
@@ -117,13 +123,35 @@ fn full_script(c: &TxnCase) -> String {
 }
 
 fn run_txn_case(c: &TxnCase, model: &mut model::Model, rep: &mut Report, label: &str) {
-    let case_id = full_script(c);
-    let mut db = Db::new();
+    run_txn_case_on(c, model, rep, label, None)
+}
+
+/// `disk`: run on a database whose user-defined indexes spill to disk (memory budget 0 +
+/// SpillToDisk, own directory); direct oracle only
+fn run_txn_case_on(c: &TxnCase, model: &mut model::Model, rep: &mut Report, label: &str, disk: Option<std::path::PathBuf>) {
+    let case_id = format!("{}{}", if disk.is_some() { "-- database with memory_budget 0 + SpillToDisk (disk-backed indexes)\n" } else { "" }, full_script(c));
+    let on_disk = disk.is_some();
+    let mut db = match &disk {
+        None => Db::new(),
+        Some(dir) => {
+            let _ = std::fs::remove_dir_all(dir);
+            let _ = std::fs::create_dir_all(dir);
+            let cfg = vibesql_storage::database::DatabaseConfig {
+                memory_budget: 0,
+                spill_policy: vibesql_storage::database::SpillPolicy::SpillToDisk,
+                ..Default::default()
+            };
+            Db::from(vibesql_storage::Database::with_path_and_config(dir.clone(), cfg))
+        }
+    };
     db.must(&c.schema.create_sql());
     for st in &c.pre {
         let _ = db.exec(&st.sql());
     }
-    let before = observe13(&mut db, true);
+    let before = observe13x(&mut db, true, !on_disk);
+    if on_disk && before.values().any(|x| x.contains("disk backed")) {
+        rep.count("disk_cases_with_a_disk_backed_index_at_begin");
+    }
     if !db.exec("BEGIN").is_ok() {
         rep.fail(FailKind::Oracle, None, "BEGIN failed on a committed state", &case_id);
         return;
@@ -139,7 +167,7 @@ fn run_txn_case(c: &TxnCase, model: &mut model::Model, rep: &mut Report, label: 
             return;
         }
         if out.is_ok() {
-            if matches!(st, Stmt::CreateIndex(..) | Stmt::DropIndex(_)) {
+            if matches!(st, Stmt::CreateIndex(..) | Stmt::CreatePrefixIndex(..) | Stmt::DropIndex(_)) {
                 index_ddl = true;
             }
             if pre_rows != scan_vals(&db, TABLE) || matches!(st, Stmt::Raw(_) | Stmt::CreateIndex(..) | Stmt::DropIndex(_)) {
@@ -147,13 +175,13 @@ fn run_txn_case(c: &TxnCase, model: &mut model::Model, rep: &mut Report, label: 
             }
         }
     }
-    let last = observe13(&mut db, true);
+    let last = observe13x(&mut db, true, !on_disk);
     let end = db.exec(if c.commit { "COMMIT" } else { "ROLLBACK" });
     if !end.is_ok() {
         rep.fail(FailKind::Oracle, None, "COMMIT/ROLLBACK of an open transaction failed", &format!("{}-- {}", case_id, end.brief()));
         return;
     }
-    let after = observe13(&mut db, true);
+    let after = observe13x(&mut db, true, !on_disk);
     rep.case(&case_id, changed >= 1 && (c.commit || before != last));
     rep.count(if c.commit { "ended_by_commit" } else { "ended_by_rollback" });
     if index_ddl {
@@ -175,6 +203,11 @@ fn run_txn_case(c: &TxnCase, model: &mut model::Model, rep: &mut Report, label: 
             if c.commit { "state after COMMIT differs from the state after the last statement" } else { "state after ROLLBACK differs from the state before BEGIN" },
             &format!("{}{}", case_id, detail),
         );
+    }
+    if let Some(dir) = &disk {
+        rep.count("disk_backed_cases");
+        let _ = std::fs::remove_dir_all(dir);
+        return;
     }
     // correspondence: whole history through the model (T only)
     let mut stmts = c.pre.clone();
@@ -208,6 +241,12 @@ fn gen_txn_case(r: &mut Rng) -> TxnCase {
         pre.push(Stmt::Insert(vec![gen_row(r, &schema, &mut g.next_id)]));
     }
     pre.extend(gen_stmts(r, &pre_cfg, &schema, &mut g));
+    if r.chance(1, 2) {
+        // an index created when the table has rows (this is what spills to disk under a zero budget)
+        let c = r.below(schema.ncols() as u64) as usize;
+        pre.push(Stmt::CreateIndex("pz".into(), vec![c], false));
+        g.idx_names.push("pz".into());
+    }
     if r.chance(1, 4) {
         // transaction control without a transaction: must fail and change nothing
         pre.push(Stmt::Raw((*r.pick(&["COMMIT", "ROLLBACK", "SAVEPOINT x"])).to_string()));
@@ -257,12 +296,23 @@ fn probes() -> Vec<(&'static str, TxnCase)> {
         Stmt::Insert(vec![vec![v(2), v(2)]]),
         Stmt::Insert(vec![vec![v(3), v(2)]]),
     ];
+    // index created AFTER the rows exist (a non-empty table is what makes it spill to disk)
+    let late_index = vec![
+        Stmt::Insert(vec![vec![v(1), v(1)]]),
+        Stmt::Insert(vec![vec![v(2), v(2)]]),
+        Stmt::Insert(vec![vec![v(3), v(2)]]),
+        Stmt::CreateIndex("qz".into(), vec![1], false),
+    ];
     vec![
         ("delete-in-txn", TxnCase { schema: s2.clone(), pre: pre.clone(), body: vec![Stmt::Delete(Pred::Cmp(0, "=", v(1)))], commit: false }),
         ("insert-update-in-txn", TxnCase { schema: s2.clone(), pre: pre.clone(), body: vec![Stmt::Insert(vec![vec![v(9), v(2)]]), Stmt::Update(vec![(1, SetE::Const(v(7)))], Pred::Cmp(1, "=", v(2)))], commit: false }),
         ("truncate-in-txn", TxnCase { schema: s2.clone(), pre: pre.clone(), body: vec![Stmt::Truncate, Stmt::Insert(vec![vec![v(1), v(5)]])], commit: false }),
         ("create-drop-table-in-txn", TxnCase { schema: s2.clone(), pre: pre.clone(), body: vec![Stmt::Raw("CREATE TABLE u (k INT PRIMARY KEY, w INT)".into()), Stmt::Raw("INSERT INTO u VALUES (1, 1)".into())], commit: false }),
         ("commit-keeps", TxnCase { schema: s2.clone(), pre: pre.clone(), body: vec![Stmt::Delete(Pred::Cmp(0, "=", v(1))), Stmt::Insert(vec![vec![v(9), v(2)]])], commit: true }),
+        // an index changed and then dropped (or its table dropped) inside the transaction comes back
+        // with the contents of BEGIN (matters for disk-backed index data, which ROLLBACK rebuilds)
+        ("update-indexed-column-then-drop-index", TxnCase { schema: s2.clone(), pre: late_index.clone(), body: vec![Stmt::Update(vec![(1, SetE::Const(v(7)))], Pred::Cmp(0, "=", v(1))), Stmt::Delete(Pred::Cmp(0, "=", v(2))), Stmt::Insert(vec![vec![v(9), v(3)]]), Stmt::DropIndex("qz".into())], commit: false }),
+        ("update-indexed-column-then-drop-table", TxnCase { schema: s2.clone(), pre: late_index.clone(), body: vec![Stmt::Update(vec![(1, SetE::Const(v(7)))], Pred::Cmp(0, "=", v(1))), Stmt::Raw("DROP TABLE t".into())], commit: false }),
         // a refused BEGIN / CREATE SCHEMA inside the transaction must not disturb what ROLLBACK restores
         ("create-index-then-nested-begin", TxnCase { schema: s2.clone(), pre: pre.clone(), body: vec![Stmt::CreateIndex("zz".into(), vec![0, 1], false), Stmt::Begin], commit: false }),
         ("drop-index-then-create-schema", TxnCase { schema: s2.clone(), pre: pre.clone(), body: vec![Stmt::DropIndex("qv".into()), Stmt::Raw("CREATE SCHEMA s9".into()), Stmt::Insert(vec![vec![v(9), v(2)]])], commit: false }),
@@ -290,10 +340,11 @@ fn main() {
     let mut model = args.model();
     for (name, c) in probes() {
         run_txn_case(&c, &mut model, &mut rep, name);
+        run_txn_case_on(&c, &mut model, &mut rep, name, Some(args.scratch.join("probe_db")));
         rep.count("probe_cases");
     }
     let mut rng = Rng::new(args.seed);
-    let n = args.n(350, 15000);
+    let n = args.n(220, 15000);
     for i in 0..n {
         let mut r = rng.fork();
         let c = gen_txn_case(&mut r);
@@ -301,6 +352,9 @@ fn main() {
             rep.sample(serde_json::json!({"script": full_script(&c)}));
         }
         run_txn_case(&c, &mut model, &mut rep, "generated");
+        if i % 3 == 0 {
+            run_txn_case_on(&c, &mut model, &mut rep, "generated, disk-backed indexes", Some(args.scratch.join(format!("db{}", i))));
+        }
     }
     std::process::exit(rep.finish());
 }
